@@ -12,8 +12,7 @@ import (
 // justify reports why the ledger allows the session of the step's browser to name U after this
 // request ("" if nothing does). Evaluated before Learn.
 func justify(s *sim.Sim, st *sim.Step, U string) string {
-	a, rec := st.Act, st.Rec
-	bs := s.Br[a.B]
+	rec := st.Rec
 	if rec.Kind != "http" {
 		return ""
 	}
@@ -22,6 +21,16 @@ func justify(s *sim.Sim, st *sim.Step, U string) string {
 		if c := s.Cookies[rec.CookiesIn["rm"]]; c != nil && (c.State == sim.Live || c.State == sim.Limbo) && c.PID == U {
 			return "remember-cookie"
 		}
+	}
+	return justifyFlow(s, st, U)
+}
+
+// justifyFlow is justify without the remember-cookie clause: the login-type flows only.
+func justifyFlow(s *sim.Sim, st *sim.Step, U string) string {
+	a, rec := st.Act, st.Rec
+	bs := s.Br[a.B]
+	if rec.Kind != "http" {
+		return ""
 	}
 	switch a.Kind {
 	case "login", "otp_login":
